@@ -32,6 +32,9 @@ def run_seed(name, with_suite):
         res = dict(demo_without=d0.returncode, demo_with=d1.returncode, suite=(suite.returncode if suite else None), checks=checks)
         res['valid'] = d0.returncode == 0 and d1.returncode != 0 and (suite is None or suite.returncode == 0)
         res['detected'] = any(c['exit'] == 1 for c in checks.values())
+        if res['valid'] and res['detected']:
+            meta['caught_by'] = [c['first_failed'].replace('failed obligation: ', '').split('  inputs=')[0] for c in checks.values() if c['exit'] == 1]
+            json.dump(meta, open(os.path.join(sd, 'meta.json'), 'w'), indent=1)
         return name, res
     finally:
         sh('git -C /repo worktree remove --force %s' % wt); shutil.rmtree(wt, ignore_errors=True)
